@@ -62,8 +62,8 @@ func GenC14Case(seed uint64, idx int) C14Case {
 		fam := mixedFamilyNames[r.Intn(len(mixedFamilyNames))]
 		classes := genClasses(r)
 		c := C14Case{Family: "mixed:" + fam, Datum: DatumSpec{Gen: "mixed:" + fam + ":" + classes, Seed: 1}}
-		if r.Chance(0.25) {
-			c.Datum.Gen += ":num"
+		if r.Chance(0.4) {
+			c.Datum.Gen += []string{":num", ":num", ":pre", ":pre", ":case", ":big"}[r.Intn(6)]
 		}
 		if r.Chance(0.35) {
 			// a used object: it has already seen a map of the same size whose key set differs in one name
@@ -499,13 +499,13 @@ func MinimizeC14(c C14Case, seed uint64, tier string) (C14Case, *C14Diff) {
 	parts := strings.SplitN(c.Datum.Gen, ":", 3)
 	classes := parts[2]
 	suffix := ""
-	for _, sfx := range []string{":alt", ":num"} {
+	for _, sfx := range []string{":alt", ":num", ":pre", ":case", ":big"} {
 		if strings.HasSuffix(classes, sfx) {
 			suffix = sfx + suffix
 			classes = strings.TrimSuffix(classes, sfx)
 		}
 	}
-	if strings.Contains(suffix, ":num") {
+	if suffix != "" && suffix != ":alt" {
 		return best, bestDiff // key names depend on positions: do not drop entries
 	}
 	keep := plan.DDMinIdx(len(classes), func(k []int) bool {
@@ -552,9 +552,10 @@ type c14Summary struct {
 // outcomes must agree across processes (a function of expression, options and
 // datum does not depend on the process either).
 type c14Sentinel struct {
-	Case  C14Case `json:"case"`
-	Hash  uint64  `json:"hash"`
-	Class string  `json:"class"`
+	Case  C14Case   `json:"case"`
+	Pair  []C14Case `json:"pair"`
+	Hash  uint64    `json:"hash"`
+	Class string    `json:"class"`
 }
 
 func sentinelClass(c C14Case) string {
@@ -621,9 +622,27 @@ func workerC14(cfg WorkerCfg) int {
 				Replay: mustJSON(map[string]interface{}{"engine": "ordersim", "property": "C14", "build": "plain", "seed": cfg.Seed, "case": min, "diff": diff, "datum_canon": clip(Canon(Build(min.Datum), false), 2000)})})
 		}
 	}
-	for i := 0; i < 32; i++ {
-		c := GenC14Case(cfg.Seed, 5000000+i)
-		sum.Sentinels = append(sum.Sentinels, c14Sentinel{Case: c, Hash: c.hash(), Class: sentinelClass(c)})
+	// Sentinels come in two option variants of the same expression text (with and
+	// without an unknown-value substitute); half of the worker processes create
+	// the lenient variant first, the other half the strict one, so that anything
+	// the library remembers per expression text across objects shows up as a
+	// disagreement between processes.
+	for i := 0; i < 20; i++ {
+		strict := GenC14Case(cfg.Seed, 5000000+i)
+		strict.Obj.Opts.Unknown = ""
+		strict.Prelude = nil
+		lenient := strict
+		lenient.Obj.Opts.Unknown = "int:1"
+		pair := []C14Case{strict, lenient}
+		if cfg.From%2 == 0 || strict.Obj.Kind == "filter" {
+			pair = []C14Case{lenient, strict}
+		}
+		if strict.Obj.Kind == "filter" {
+			pair = []C14Case{strict}
+		}
+		for _, c := range pair {
+			sum.Sentinels = append(sum.Sentinels, c14Sentinel{Case: c, Pair: []C14Case{strict, lenient}, Hash: c.hash(), Class: sentinelClass(c)})
+		}
 	}
 	cfg.Emit(sum)
 	return 0
@@ -636,20 +655,38 @@ func replayC14(cfg WorkerCfg) int {
 		return 2
 	}
 	var doc struct {
-		Build     string   `json:"build"`
-		Seed      uint64   `json:"seed"`
-		Case      C14Case  `json:"case"`
-		Diff      *C14Diff `json:"diff"`
-		R         int      `json:"r"`
-		CrossProc bool     `json:"cross_process"`
+		Build     string    `json:"build"`
+		Seed      uint64    `json:"seed"`
+		Case      C14Case   `json:"case"`
+		Diff      *C14Diff  `json:"diff"`
+		R         int       `json:"r"`
+		CrossProc bool      `json:"cross_process"`
+		Pair      []C14Case `json:"pair"`
 	}
 	if err := json.Unmarshal(b, &doc); err != nil {
 		fmt.Fprintln(os.Stderr, err)
 		return 2
 	}
 	if doc.CrossProc {
-		// the driver runs this in several fresh processes and compares the classes
-		cfg.Emit(map[string]interface{}{"type": "replay", "reproduced": false, "class": sentinelClass(doc.Case)})
+		// the driver runs this in several fresh processes (alternating the order in
+		// which the sibling cases are created) and compares the classes
+		pair := doc.Pair
+		if cfg.K%2 == 1 {
+			for i, j := 0, len(pair)-1; i < j; i, j = i+1, j-1 {
+				pair[i], pair[j] = pair[j], pair[i]
+			}
+		}
+		class := ""
+		for _, c := range pair {
+			cl := sentinelClass(c)
+			if c.hash() == doc.Case.hash() {
+				class = cl
+			}
+		}
+		if class == "" {
+			class = sentinelClass(doc.Case)
+		}
+		cfg.Emit(map[string]interface{}{"type": "replay", "reproduced": false, "class": class})
 		return 0
 	}
 	if doc.Build == "pure" {
